@@ -97,8 +97,8 @@ func c01SmallAtoms() []*ref.Expr {
 var c01Conn = []string{"&", "|", "and", "or"}
 
 type c01Unit struct {
-	fam  string // d1 | d2 | d2kw | d3
-	i    int
+	fam string // d1 | d2 | d2kw | d3
+	i   int
 }
 
 func c01Units(t core.Tier) []c01Unit {
